@@ -5,6 +5,7 @@ import shutil
 import tempfile
 
 from .. import coqenc as q
+from .. import datasets_c03 as DS
 
 ID = 'C03'
 RULE = ('exhaustive small scope (recording length x window length x all sorted spike vectors of <= 2 '
@@ -20,8 +21,10 @@ CLAUSES = {
     21: 'C03_extract / C03_extract_waveforms (direct extraction = zero-padded window per spike)',
     22: 'C03_export (file loads as float64 array of the declared shape (n_spikes, n, n_channels_loc))',
     23: 'C03_export / C03_iter (loaded values = window x unit factor, every spike once, in spike order)',
-    24: 'C03_store (look-up in the exported subset store = window on the stored channels, any query order)',
-    25: 'TemplateModel.get_waveforms = window (integration route over C03_extract_waveforms / C03_store)',
+    24: 'C03_store / C03_store_masked (look-up in the exported subset store = scaled window on the stored channels, '
+        'zeros elsewhere; ids in any order, repeated; -1 anywhere in a stored row)',
+    25: 'C03_route_model* (TemplateModel.get_waveforms on a dataset directory: a store holding the queried ids -> the '
+        'store look-up, otherwise raw data -> the windows at spike_samples[spike_ids])',
 }
 TRUSTED = ['np.save/np.load/.npy header and tobytes byte layout, np.memmap',
            'NumPy dtype promotion (tabulated in PV.C03.Model.promote, cross-checked on every export case)',
@@ -31,8 +34,12 @@ TRUSTED = ['np.save/np.load/.npy header and tobytes byte layout, np.memmap',
 ASSUMES = ['spike samples are integers in [0, n_samples); the vector is sorted for the chunked routes',
            'window length >= 1; channel entries in {-1} u [0, n_channels), at least one channel requested, '
            'recording has >= 1 channel and >= 1 sample',
-           'store look-ups: queried ids belong to the store; queried channels other than -1 are distinct; '
-           'claimed on the channels stored for the spike (zeros elsewhere, which the model also predicts)',
+           'store look-ups: queried ids belong to the store; claimed on the channels stored for the spike (zeros '
+           'elsewhere, which the model also predicts); when a channel other than -1 is queried twice only equality with '
+           'the model is judged (only the last occurrence receives data: C03_ex_store_dup)',
+           'TemplateModel route: >= 2 spikes, window >= 2, >= 2 channels, stores of >= 2 spikes x >= 2 channel columns '
+           '(the loader squeezes singleton dimensions away); the store is exported by phylib itself from the '
+           "model's traces (export_waveforms, or save_spikes_subset_waveforms whose choice of spikes/channels is read back)",
            'values: integers x factors that are multiples of 1/2, every product exact in float64; one export case in '
            'five has samples at the top of the exact range of its sample type (int16 up to 32767, float32 with 24-bit '
            'mantissas) so that a product taken in the sample type instead of the declared float64 is visible']
@@ -150,9 +157,62 @@ def _store_case(i, rng, base):
     rng.shuffle(qch)
     if not qch:
         qch = [rng.randrange(nc)]
+    if i % 7 == 3 and real:                      # a channel queried twice (judged against the model only)
+        qch.insert(rng.randrange(len(qch) + 1), rng.choice(real))
     inp['q_ch'] = qch
     inp['qkind'] = _rot(CKINDS, i)
     return {'kind': 'store', 'inp': inp}
+
+
+TDTYPES = ['uint64', 'int64', 'uint32', 'int32']
+
+
+def _model_case(j, rng, nrmax=14):
+    """TemplateModel.get_waveforms on a generated dataset directory: raw data and/or a subset store."""
+    nr = rng.randint(2, nrmax)
+    sizes = _rand_sizes(rng, nr, 3)
+    cs = rng.randint(1, nr)
+    n = rng.randint(2, 6)
+    nc = rng.randint(2, 4)
+    samples = _biased_samples(rng, nr, sizes, cs, n, rng.randint(2, 6))
+    ns = len(samples)
+    mode = _rot(['raw', 'store+raw', 'store', 'store+raw', 'raw', 'save', 'store', 'none'], j)
+    extra = _rot([0, 2, 1], j)
+    inp = {'sizes': sizes, 'nc': nc, 'cs': cs, 'dtype': _rot(DTYPES, j + j // 8), 'samples': samples, 'n': n,
+           'extra': extra, 'cmrot': j % 3, 'offset': _rot([0, 0, 6], j) if len(sizes) == 1 else 0,
+           'tdtype': _rot(TDTYPES, j // 2), 'raw': mode in ('raw', 'store+raw', 'save'), 'store': None,
+           'qkind': _rot(CKINDS, j // 3)}
+    stored = []
+    if mode in ('store', 'store+raw'):
+        k = rng.randint(2, ns)
+        stored = sorted(rng.sample(range(ns), k))
+        w = rng.randint(2, 3)
+        inp['store'] = {'via': 'export', 'ids': stored, 'table': _table(rng, stored, nc, w),
+                        'factor': _rot(FKEYS, j // 4)}
+    elif mode == 'save':
+        inp['store'] = {'via': 'save', 'nst': rng.choice([1, 2, 50]), 'mnc': rng.choice([None, 2, 14]),
+                        'factor': _rot(['f1', 'fh', 'f25', 'np2'], j // 8)}
+        stored = list(range(ns))
+    # query: shuffled, repeated ids; sometimes an id the store does not hold, a negative (wrapping) id
+    pool = stored if stored and j % 5 else list(range(ns))
+    qn = rng.randint(1, 4)
+    q_ids = [rng.choice(pool) for _ in range(qn)]
+    if j % 11 == 4:
+        q_ids.append(rng.choice([-1, -ns]))
+    if j % 13 == 6:
+        q_ids = []
+    inp['q_ids'] = q_ids
+    r = j % 6
+    if r == 0:
+        inp['q_ch'] = None
+    else:
+        real = rng.sample(range(nc), rng.randint(1, nc))
+        qch = real + [-1] * rng.choice([0, 0, 1])
+        rng.shuffle(qch)
+        if j % 17 == 9:
+            qch.append(rng.choice(real))
+        inp['q_ch'] = qch
+    return {'kind': 'model', 'inp': inp}
 
 
 CORPUS = [
@@ -210,6 +270,47 @@ CORPUS = [
                               'spikes': [[0, [2, -1]], [2, [0, 1]], [4, [1, 2]]], 'n': 3, 'w': 2, 'factor': 'f1',
                               'sdtype': 'int64', 'cache': False, 'threads': 1, 'ids': [7, 2, 5],
                               'q_ids': [5, 7, 5, 2], 'q_ch': [1, -1, 2], 'qkind': 'list'}},
+    # store row with -1 in a NON-final position, queried on the channel right of it (seeded change C03-m2)
+    {'kind': 'store', 'inp': {'sizes': [4], 'nc': 3, 'cs': 4, 'backend': 'flat', 'dtype': 'int16',
+                              'spikes': [[1, [-1, 2, 0]], [3, [0, -1, 1]]], 'n': 2, 'w': 3, 'factor': 'f1',
+                              'sdtype': 'int64', 'cache': False, 'threads': 1, 'ids': [4, 9],
+                              'q_ids': [9, 4, 9], 'q_ch': [0, 1, 2], 'qkind': 'i64'}},
+    # a channel queried twice: only its last column receives data (model equality only)
+    {'kind': 'store', 'inp': {'sizes': [3], 'nc': 2, 'cs': 2, 'backend': 'flat', 'dtype': 'int16',
+                              'spikes': [[0, [-1, 1]], [2, [1, 0]]], 'n': 2, 'w': 2, 'factor': 'f25',
+                              'sdtype': 'int64', 'cache': False, 'threads': 1, 'ids': [7, 3],
+                              'q_ids': [3], 'q_ch': [1, 1], 'qkind': 'list'}},
+    # TemplateModel.get_waveforms: raw only (uint64 spike_times, float32 recording, two files, channel map)
+    {'kind': 'model', 'inp': {'sizes': [4, 3], 'nc': 3, 'cs': 3, 'dtype': 'float32', 'samples': [0, 2, 2, 6], 'n': 4,
+                              'extra': 2, 'cmrot': 1, 'offset': 0, 'tdtype': 'uint64', 'raw': True, 'store': None,
+                              'q_ids': [3, 0, 1, 3], 'q_ch': [2, -1, 0], 'qkind': 'list'}},
+    # ... store and raw data: the store answers (scaled, zeros on channels not stored)
+    {'kind': 'model', 'inp': {'sizes': [4, 3], 'nc': 3, 'cs': 3, 'dtype': 'int16', 'samples': [0, 2, 2, 6], 'n': 4,
+                              'extra': 2, 'cmrot': 1, 'offset': 0, 'tdtype': 'uint64', 'raw': True,
+                              'store': {'via': 'export', 'ids': [1, 2, 3], 'table': [[0, -1], [-1, 2], [1, 1]], 'factor': 'fh'},
+                              'q_ids': [3, 1, 3], 'q_ch': [2, -1, 0, 1], 'qkind': 'i64'}},
+    # ... store without raw data; ... an id the store does not hold: raw route (with raw) / error (without)
+    {'kind': 'model', 'inp': {'sizes': [7], 'nc': 3, 'cs': 3, 'dtype': 'int16', 'samples': [0, 2, 2, 6], 'n': 4,
+                              'extra': 0, 'cmrot': 0, 'offset': 6, 'tdtype': 'int64', 'raw': False,
+                              'store': {'via': 'export', 'ids': [1, 2, 3], 'table': [[0, -1], [-1, 2], [1, 1]], 'factor': 'i2'},
+                              'q_ids': [2, 2, 1], 'q_ch': None, 'qkind': 'list'}},
+    {'kind': 'model', 'inp': {'sizes': [7], 'nc': 3, 'cs': 3, 'dtype': 'float64', 'samples': [0, 2, 2, 6], 'n': 4,
+                              'extra': 1, 'cmrot': 2, 'offset': 0, 'tdtype': 'uint32', 'raw': True,
+                              'store': {'via': 'export', 'ids': [1, 2, 3], 'table': [[0, -1], [-1, 2], [1, 1]], 'factor': 'f25'},
+                              'q_ids': [3, 0], 'q_ch': [1, 0], 'qkind': 'i32'}},
+    {'kind': 'model', 'inp': {'sizes': [7], 'nc': 3, 'cs': 3, 'dtype': 'int16', 'samples': [0, 2, 2, 6], 'n': 4,
+                              'extra': 0, 'cmrot': 0, 'offset': 0, 'tdtype': 'uint64', 'raw': False,
+                              'store': {'via': 'export', 'ids': [1, 2, 3], 'table': [[0, -1], [-1, 2], [1, 1]], 'factor': 'f1'},
+                              'q_ids': [3, 0], 'q_ch': [1, 0], 'qkind': 'list'}},
+    # ... neither: None
+    {'kind': 'model', 'inp': {'sizes': [7], 'nc': 3, 'cs': 3, 'dtype': 'int16', 'samples': [0, 2, 2, 6], 'n': 4,
+                              'extra': 0, 'cmrot': 0, 'offset': 0, 'tdtype': 'uint64', 'raw': False, 'store': None,
+                              'q_ids': [3, 0], 'q_ch': [1, 0], 'qkind': 'list'}},
+    # ... the store written by save_spikes_subset_waveforms itself (12 channel columns, trailing -1)
+    {'kind': 'model', 'inp': {'sizes': [4, 3], 'nc': 3, 'cs': 3, 'dtype': 'float32', 'samples': [0, 2, 2, 6], 'n': 4,
+                              'extra': 2, 'cmrot': 1, 'offset': 0, 'tdtype': 'uint64', 'raw': True,
+                              'store': {'via': 'save', 'nst': 50, 'mnc': 2, 'factor': 'np2'},
+                              'q_ids': [3, 0, 0], 'q_ch': [0, 1], 'qkind': 'i64'}},
 ]
 
 
@@ -218,6 +319,8 @@ def generate(tier, rng):
     if tier == 'search':
         for i in range(1500):
             cases += _random_cases(i, rng, 30, 7)
+        for i in range(600):
+            cases.append(_model_case(i, rng, 20))
         return cases
     quick = tier == 'quick'
     i = 0
@@ -261,6 +364,9 @@ def generate(tier, rng):
         samples = _biased_samples(rng, nr, sizes, cs, n, rng.randint(1, 4))
         base = _export_case(i + j, rng, sizes, nc, cs, samples, n)
         cases.append(_store_case(j, rng, base))
+    # ---- TemplateModel.get_waveforms on dataset directories (raw / store / both / neither)
+    for j in range(320 if quick else 4000):
+        cases.append(_model_case(j, rng))
     # ---- random larger
     for j in range(500 if quick else 6000):
         cases += _random_cases(j, rng, 40, 9)
@@ -447,9 +553,42 @@ def run_case(case):
             res = _canon(np, out, 2)
             del w, st
             return ('lookup', res, chunkinfo)
+        if k == 'model':
+            return _run_model(np, d, i)
         raise ValueError(k)
     finally:
         shutil.rmtree(d, ignore_errors=True)
+
+
+def _run_model(np, d, i):
+    from phylib.io.model import TemplateModel
+    kw, paths = DS.write_dataset(np, d, i)
+    st = i.get('store')
+    info = None
+    if st:
+        m = TemplateModel(dat_path=paths, **kw)          # the store is exported from the model's own traces
+        try:
+            if st['via'] == 'save':
+                m.save_spikes_subset_waveforms(max_n_spikes_per_template=st['nst'], max_n_channels=st.get('mnc'),
+                                               sample2unit=_factor(np, st['factor']))
+                info = DS.read_store(np, d)
+            else:
+                DS.write_store(np, d, m, st, _factor(np, st['factor']))
+        finally:
+            m.close()
+    m = TemplateModel(dat_path=(paths if i['raw'] else None), **kw)
+    try:
+        q_ids = list(i['q_ids']) if i['qkind'] == 'list' else np.array(i['q_ids'], dtype=np.int64)
+        q_ch = None if i['q_ch'] is None else _chans(np, i['q_ch'], i['qkind'])
+        try:
+            out = m.get_waveforms(q_ids, q_ch)
+        except Exception as e:  # noqa  (a modelled outcome: e.g. a store that misses an id and no raw data)
+            return ('model', ['raised', type(e).__name__, str(e)[:100]], info)
+        if out is None:
+            return ('model', ['none'], info)
+        return ('model', _canon(np, out, 2), info)
+    finally:
+        m.close()
 
 
 # ---- encoding for Coq ---------------------------------------------------------------------------
@@ -488,6 +627,8 @@ def encode(case, obs):
             return cin, 'ObsCrash'
         items = [_obs_waves(res) for res, _ in obs[1]]
         return cin, (items[0] if len(items) == 1 else q.app('ObsMany', q.lst(items)))
+    if k == 'model':
+        return _encode_model(i, obs, crash)
     chunkinfo = None if crash else obs[-1]
     _, fk, f2 = FACTORS[i['factor']]
     f2 = f2 * i.get('amp', 1)     # samples = amp x (10 r + c + 1): the amplitude is folded into the unit factor of the model
@@ -516,6 +657,45 @@ def encode(case, obs):
     raise ValueError(k)
 
 
+def _model_store(i, obs):
+    """(ids, table) of the store on disk: given, or read back after save_spikes_subset_waveforms"""
+    st = i.get('store')
+    if not st:
+        return None
+    if st['via'] == 'save':
+        info = obs[2] if (obs and obs[0] == 'model') else None
+        return info
+    return st['ids'], st['table']
+
+
+def _encode_model(i, obs, crash):
+    nr = sum(i['sizes'])
+    st = i.get('store')
+    ms = 'None'
+    if st:
+        got = _model_store(i, obs)
+        if got is None:
+            # the store could not even be written: stand-in that keeps the input in the regime
+            ids, table = [0, 1], [[0, 0], [0, 0]]
+            crash = True
+        else:
+            ids, table = got
+        _, fk, f2 = FACTORS[st['factor']]
+        ms = '(Some (mkms %s %s %s %s %s))' % (q.app('Flat', q.zl(i['sizes']), q.z(i['cs'])), q.zl(ids),
+                                              q.lst(table, q.zl), fk, q.z(f2))
+    qch = 'None' if i['q_ch'] is None else '(Some %s)' % q.zl(i['q_ch'])
+    cin = q.app('InModel', q.z(nr), q.z(i['nc']), q.zl(i['samples']), q.z(i['n']), 'true' if i['raw'] else 'false',
+                ms, q.zl(i['q_ids']), qch)
+    if crash:
+        return cin, 'ObsCrash'
+    res = obs[1]
+    if res[0] == 'none':
+        return cin, 'ObsNone'
+    if res[0] == 'raised':
+        return cin, 'ObsCrash'
+    return cin, _obs_waves(res)
+
+
 def _touches(i, s, n):
     nr = sum(i['sizes'])
     t0, t1 = s - n // 2, s - n // 2 + n
@@ -535,6 +715,9 @@ def nontrivial(case, obs):
     k, i = case['kind'], case['inp']
     if k == 'extract':
         return any(_touches(i, s, i['n']) for s in i['samples']) or -1 in i['chans']
+    if k == 'model':
+        qs = [i['samples'][x] for x in i['q_ids'] if -len(i['samples']) <= x < len(i['samples'])]
+        return bool(i['store']) or any(_touches(i, s, i['n']) for s in qs) or (i['q_ch'] is not None and -1 in i['q_ch'])
     return any(_touches(i, s, i['n']) or -1 in r for s, r in i['spikes'])
 
 
@@ -549,6 +732,21 @@ def dist(case, obs):
            'window_vs_len=%s' % ('longer' if i['n'] > nr else 'fits')]
     if obs[0] == 'crash':
         out.append('crash=' + obs[1])
+        return out
+    if k == 'model':
+        st = i.get('store')
+        out += ['model.raw=%s' % i['raw'], 'model.store=%s' % (st['via'] if st else 'no'), 'model.dtype=' + i['dtype'],
+                'model.spike_times=' + i['tdtype'], 'model.outcome=' + obs[1][0],
+                'model.channels=' + ('all' if i['q_ch'] is None else 'listed'),
+                'model.query_repeats=%s' % (len(set(i['q_ids'])) < len(i['q_ids'])),
+                'model.query_sorted=%s' % (i['q_ids'] == sorted(i['q_ids'])),
+                'model.extra_dat_channels=%d' % i.get('extra', 0)]
+        if st:
+            got = _model_store(i, obs)
+            out.append('model.factor=' + st['factor'])
+            if got:
+                out.append('model.query_in_store=%s' % all(x in got[0] for x in i['q_ids']))
+                out.append('model.store_row_minus1_inner=%s' % any(-1 in r[:-1] and r[-1] != -1 for r in got[1]))
         return out
     if k == 'extract':
         out.append('extract.spikes=%s' % _bucket(len(i['samples'])))
@@ -574,12 +772,69 @@ def dist(case, obs):
 
 def size(case):
     i = case['inp']
+    if case['kind'] == 'model':
+        st = i.get('store') or {}
+        return (sum(i['sizes']) * 10 + len(i['samples']) * 20 + i['n'] * 5 + len(i['sizes']) * 5 + len(i['q_ids']) * 5 +
+                len(i['q_ch'] or []) + len(st.get('ids', [])) * 8 + i.get('extra', 0) * 3 + i.get('offset', 0))
     return (sum(i['sizes']) * 10 + len(i.get('samples', i.get('spikes', []))) * 20 + i['n'] * 5 + len(i['sizes']) * 5 +
             len(i.get('cfgs', [])) * 3 + len(i.get('q_ids', [])) * 5 + len(i.get('q_ch', [])) + i.get('w', 0) * 3)
 
 
+def _shrink_model(case):
+    i = case['inp']
+
+    def mk(**kw):
+        j = dict(i)
+        j.update(kw)
+        return {'kind': 'model', 'inp': j}
+    st = i.get('store')
+    nr = sum(i['sizes'])
+    for d in range(len(i['q_ids'])):
+        if len(i['q_ids']) > 1:
+            yield mk(q_ids=i['q_ids'][:d] + i['q_ids'][d + 1:])
+    if i['q_ch'] is not None:
+        for d in range(len(i['q_ch'])):
+            if len(i['q_ch']) > 1:
+                yield mk(q_ch=i['q_ch'][:d] + i['q_ch'][d + 1:])
+    if st and st['via'] == 'export':
+        for d in range(len(st['ids'])):
+            if len(st['ids']) > 2 and st['ids'][d] not in i['q_ids']:
+                yield mk(store=dict(st, ids=st['ids'][:d] + st['ids'][d + 1:], table=st['table'][:d] + st['table'][d + 1:]))
+        if len(st['table'][0]) > 2:
+            yield mk(store=dict(st, table=[r[:-1] for r in st['table']]))
+    # drop the last spike when nothing refers to it
+    ns = len(i['samples'])
+    used = set(x % ns for x in i['q_ids'] if -ns <= x < ns) | set(st['ids'] if st and st['via'] == 'export' else [])
+    neg = any(x < 0 for x in i['q_ids'])
+    if ns > 2 and (ns - 1) not in used and not neg and not (st and st['via'] == 'save'):
+        yield mk(samples=i['samples'][:-1])
+    if len(i['sizes']) > 1:
+        yield mk(sizes=[nr])
+    if i.get('extra', 0):
+        yield mk(extra=0, cmrot=0)
+    if i.get('offset', 0):
+        yield mk(offset=0)
+    if nr > 1 and max(i['samples']) < nr - 1:
+        sizes = list(i['sizes'])
+        if sizes[-1] > 1:
+            sizes[-1] -= 1
+        else:
+            sizes = sizes[:-1]
+        yield mk(sizes=sizes, cs=min(i['cs'], nr - 1))
+    if i['n'] > 2:
+        yield mk(n=i['n'] - 1)
+    if i['cs'] < nr:
+        yield mk(cs=nr)
+    if i['cs'] > 1:
+        yield mk(cs=i['cs'] - 1)
+
+
 def shrink(case):
     k, i = case['kind'], case['inp']
+    if k == 'model':
+        for c in _shrink_model(case):
+            yield c
+        return
 
     def mk(**kw):
         j = dict(i)
